@@ -230,6 +230,37 @@ func (x *Exec) mergeVal(conds []T, vals []Val, hint string) Val {
 		if v0.Back == nil && ok4 {
 			res.Arr, ok4 = mk(func(s *SliceV) T { return s.Arr }, "_arr")
 		}
+		if ok1 && ok2 && ok3 && !ok4 {
+			// different backing stores: the merged slice gets its own store holding the selected
+			// contents (aliasing with the originals is not tracked beyond this point)
+			allSlices := true
+			arrs := make([]Val, len(vals))
+			for i := range vals {
+				s, ok := vals[i].(*SliceV)
+				if !ok {
+					allSlices = false
+					break
+				}
+				a := s.Arr
+				if s.Back != nil {
+					cv, has := x.mergeSource(i, s.Back)
+					if !has {
+						allSlices = false
+						break
+					}
+					a = cv
+				}
+				arrs[i] = Leaf{T: a}
+			}
+			if allSlices {
+				x.ncell++
+				nc := &Cell{Name: "merged_backing", ID: x.ncell}
+				x.cur.mem[nc] = x.mergeVal(conds, arrs, hint+"_marr")
+				res.Back = nc
+				res.Arr = T{}
+				return &res
+			}
+		}
 		if !(ok1 && ok2 && ok3 && ok4) {
 			return Opaque{Desc: "slice merge with different backing stores"}
 		}
@@ -323,6 +354,7 @@ func (x *Exec) runBlock(b *ssa.BasicBlock) {
 		}
 		pc := x.vc.define(fmt.Sprintf("pc_b%d", b.Index), mkOr(conds...))
 		x.curPC = pc
+		x.mergeStates = states
 		if len(states) == 1 {
 			x.cur = states[0].clone()
 		} else {
@@ -448,6 +480,20 @@ func (x *Exec) maybeLimit(ins ssa.Instruction) bool {
 		}
 		x.cutsDone[c] = true
 		env := x.entryEnv()
+		// result names stand for arbitrary values here: the guard must be false whatever is returned
+		sigRes := x.fn.Signature.Results()
+		for k := 0; k < sigRes.Len(); k++ {
+			fv := x.freshVal(fmt.Sprintf("anyres%d", k), sigRes.At(k).Type())
+			if k < len(x.contract.Returns) && x.contract.Returns[k] != "" && x.contract.Returns[k] != "_" {
+				env.vars[x.contract.Returns[k]] = fv
+			} else if sigRes.At(k).Name() != "" && sigRes.At(k).Name() != "_" {
+				env.vars[sigRes.At(k).Name()] = fv
+			}
+			env.vars[fmt.Sprintf("$%d", k+1)] = fv
+			if sigRes.Len() == 1 {
+				env.vars["result"] = fv
+			}
+		}
 		for n, e := range x.contract.Ensures {
 			imp, ok := e.E.(*EBin)
 			if !ok || imp.Op != "==>" {
@@ -598,6 +644,9 @@ func (x *Exec) enterLoop(li *loopInfo) {
 					li.mod[c] = true
 				}
 			case *ssa.Call:
+				if bi, ok := s.Call.Value.(*ssa.Builtin); ok && (bi.Name() == "len" || bi.Name() == "cap" || bi.Name() == "min" || bi.Name() == "max" || bi.Name() == "ssa:deferstack") {
+					continue
+				}
 				for _, a := range s.Call.Args {
 					if _, ok := a.Type().Underlying().(*types.Pointer); ok {
 						if c := x.rootCell(a); c != nil {
@@ -661,8 +710,10 @@ func (x *Exec) enterLoop(li *loopInfo) {
 	}
 	li.head = x.cur.clone()
 	// cover probe: loop body reachable
-	o := x.oblige(id+"/cover", "cover", x.curPC, tFalse, "loop head reachable under invariant", pos)
-	o.MustFail = true
+	if !x.waived("cover", pos) {
+		o := x.oblige(id+"/cover", "cover", x.curPC, tFalse, "loop head reachable under invariant", pos)
+		o.MustFail = true
+	}
 }
 
 func (x *Exec) sliceStoredIn(li *loopInfo, c *Cell) bool {
@@ -1323,4 +1374,21 @@ func replayLeaves(v Val, t types.Type, path string, out *[]ReplayLeaf) bool {
 		}
 	}
 	return false
+}
+
+// mergeSource returns the contents of a backing-store cell in the i-th state being merged.
+func (x *Exec) mergeSource(i int, c *Cell) (T, bool) {
+	if i < len(x.mergeStates) {
+		if v, ok := x.mergeStates[i].mem[c]; ok {
+			if l, ok := v.(Leaf); ok {
+				return l.T, true
+			}
+		}
+	}
+	if v, ok := x.cur.mem[c]; ok {
+		if l, ok := v.(Leaf); ok {
+			return l.T, true
+		}
+	}
+	return T{}, false
 }
